@@ -220,7 +220,8 @@ func VerifyYouVersionState(prev, curr *types.Header) (err error) {
 }
 
 func (bc *BlockChain) VerifyYouVersionState(chain types.Blocks) (int, error) {
-	firstParent := bc.GetHeaderByNumber(chain[0].NumberU64() - 1)
+	// the parent of the first block, which need not be the canonical header of that number
+	firstParent := bc.GetHeader(chain[0].ParentHash(), chain[0].NumberU64()-1)
 	if firstParent == nil {
 		return 0, consensus.ErrUnknownAncestor
 	}
@@ -239,7 +240,7 @@ func (bc *BlockChain) VerifyYouVersionState(chain types.Blocks) (int, error) {
 }
 
 func (bc *BlockChain) VerifyYouVersionState2(chain []*types.Header) (int, error) {
-	firstParent := bc.GetHeaderByNumber(chain[0].Number.Uint64() - 1)
+	firstParent := bc.GetHeader(chain[0].ParentHash, chain[0].Number.Uint64()-1)
 	if firstParent == nil {
 		return 0, consensus.ErrUnknownAncestor
 	}
